@@ -85,12 +85,64 @@ class RngModel:
     def standard_normal(self, size=None):
         return self.normal(size=size)
 
+    # ---- private generators (np.random.RandomState(seed) / default_rng(seed)): their own state chain, the global one is not involved ----
+    def RandomState(self, seed=None):
+        return _PrivateStream(self, seed, legacy=True)
+
+    def default_rng(self, seed=None):
+        return _PrivateStream(self, seed, legacy=False)
+
     # ---- obligations ------------------------------------------------------------------------------
     def state_restored(self):
         """z3: is there an interpretation of Seed / Adv and a start state with final != start?"""
         s = z3.Solver()
         s.add(self.term != self.s0)
         return str(s.check()) == "unsat"
+
+
+class _PrivateStream:
+    """a generator object of its own: seeded -> state term Seed(k) (PrivSeed(k) for the new Generator API), advanced by its own draws;
+    unseeded -> entropy from the OS, i.e. a state of unknown provenance (results would not be reproducible: recorded as a global draw)"""
+    def __init__(s, model, seed, legacy):
+        s.model = model
+        if seed is None:
+            model.nforeign = getattr(model, "nforeign", 0) + 1
+            s.term = z3.Const(f"entropy{model.nforeign}", State)
+            s.unseeded = True
+            s.real = np.random.RandomState() if legacy else np.random.default_rng()
+        else:
+            s.term = Seed(z3.IntVal(int(seed))) if legacy else z3.Function("PrivSeed", z3.IntSort(), State)(z3.IntVal(int(seed)))
+            s.unseeded = False
+            s.real = np.random.RandomState(int(seed)) if legacy else np.random.default_rng(int(seed))
+
+    def _draw(s, shape, what):
+        m = s.model
+        shape = tuple(int(x) for x in shape)
+        size = int(np.prod(shape)) if shape else 1
+        if s.unseeded:
+            m.global_draws.append(f"unseeded private generator: {what}{shape}")
+        m.ndraws += 1
+        key = (s.term.sexpr(), shape, what)
+        m.draw_terms.append((key[0], shape))
+        vals = s.real.standard_normal(shape) if shape else s.real.standard_normal()
+        if m.mode == "symbolic" and m.T is not None and m.T.sym:
+            if key not in m.memo:
+                m.memo[key] = m.T.arr(f"z{len(m.memo)}", shape, 'float64')
+            out = m.memo[key]
+        else:
+            out = vals
+        s.term = Adv(s.term, z3.IntVal(size))
+        return out
+
+    def randn(s, *shape):
+        return s._draw(shape, "randn")
+
+    def standard_normal(s, size=None, **kw):
+        shape = () if size is None else (tuple(size) if not isinstance(size, int) else (size, ))
+        return s._draw(shape, "normal")
+
+    def normal(s, loc=0.0, scale=1.0, size=None):
+        return loc + scale * s.standard_normal(size)
 
 
 class _NpWithRandom:
